@@ -7,6 +7,7 @@ import (
 	"github.com/transparency-dev/witness/internal/witness"
 	"io"
 	"net/http"
+	"strconv"
 	"strings"
 	"sync"
 	"time"
@@ -32,6 +33,10 @@ type pathRecorder struct {
 }
 
 func (p *pathRecorder) RoundTrip(r *http.Request) (*http.Response, error) {
+	// As net/http's transport: a request whose context has ended fails.
+	if err := r.Context().Err(); err != nil {
+		return nil, err
+	}
 	p.mu.Lock()
 	p.paths = append(p.paths, r.URL.Path)
 	p.mu.Unlock()
@@ -76,6 +81,10 @@ func (s *sumdbServer) ReadHashes(idx []int64) ([]tlog.Hash, error) {
 }
 
 func (s *sumdbServer) RoundTrip(r *http.Request) (*http.Response, error) {
+	// As net/http's transport: a request whose context has ended fails.
+	if err := r.Context().Err(); err != nil {
+		return nil, err
+	}
 	mk := func(code int, body []byte) (*http.Response, error) {
 		h := http.Header{}
 		if s.contentType != "" {
@@ -206,119 +215,7 @@ func c18(tier string) int {
 	wh.InstallLogicalClock()
 	var evals int64
 
-	// ------------------------------------------------ addressing
-	rec := &pathRecorder{}
-	u0 := uni.New(ev.Seed(), 2, nil)
-	sc := client.NewSumDB(8, u0.K1.Verif, "http://sumdb.test", &http.Client{Transport: rec})
-	last := func() string {
-		rec.mu.Lock()
-		defer rec.mu.Unlock()
-		if len(rec.paths) != 1 {
-			n := len(rec.paths)
-			rec.paths = rec.paths[:0]
-			return fmt.Sprintf("<%d requests instead of 1>", n)
-		}
-		p := rec.paths[0]
-		rec.paths = rec.paths[:0]
-		return p
-	}
-	idxSet := map[int64]bool{}
-	for i := int64(0); i <= 2100; i++ {
-		idxSet[i] = true
-	}
-	for _, base := range []int64{1000, 1000000, 1000000000} {
-		for _, m := range []int64{1, 2, 9, 10, 99, 100, 999} {
-			for _, d := range []int64{-1, 0, 1} {
-				if v := base*m + d; v >= 0 && v <= 1000000001 {
-					idxSet[v] = true
-				}
-			}
-		}
-	}
-	idxSet[999999] = true
-	idxSet[999999999] = true
-	idxSet[123456789] = true
-	widths := []int{}
-	for w := 1; w <= 256; w++ {
-		widths = append(widths, w)
-	}
-	wsub := []int{1, 2, 9, 10, 99, 100, 255, 256}
-	var addrBad int
-	for n := range idxSet {
-		ws := wsub
-		if n <= 40 || n%1000 == 999 || n%1000 == 0 {
-			ws = widths
-		}
-		for level := 0; level <= 7; level++ {
-			for _, w := range ws {
-				partial := w
-				if w == 256 {
-					partial = -1 // as the feeder's tile reader maps the full width
-				}
-				_, _ = sc.TileData(level, int(n), partial)
-				got := last()
-				want := "/" + tlog.Tile{H: 8, L: level, N: n, W: w}.Path()
-				evals++
-				if got != want {
-					addrBad++
-					run.Report(fmt.Sprintf("tile-path kind=hash carry=%v partial=%v", n >= 1000, w < 256), fmt.Sprintf("TileData(level=%d, offset=%d, width=%d) requested %s, the reference tlog path is %s", level, n, w, got, want), map[string]any{"kind": "tile-path", "level": level, "n": n, "w": w})
-				}
-			}
-		}
-		// data tiles
-		_, _ = sc.FullLeavesAtOffset(int(n))
-		got := last()
-		want := "/" + tlog.Tile{H: 8, L: -1, N: n, W: 256}.Path()
-		evals++
-		if got != want {
-			run.Report(fmt.Sprintf("tile-path kind=data-full carry=%v", n >= 1000), fmt.Sprintf("FullLeavesAtOffset(%d) requested %s, reference %s", n, got, want), map[string]any{"kind": "tile-path", "level": -1, "n": n, "w": 256})
-		}
-		for _, w := range wsub[:7] {
-			_, _ = sc.PartialLeavesAtOffset(int(n), w)
-			got := last()
-			want := "/" + tlog.Tile{H: 8, L: -1, N: n, W: w}.Path()
-			evals++
-			if got != want {
-				run.Report(fmt.Sprintf("tile-path kind=data-partial carry=%v", n >= 1000), fmt.Sprintf("PartialLeavesAtOffset(%d, %d) requested %s, reference %s", n, w, got, want), map[string]any{"kind": "tile-path", "level": -1, "n": n, "w": w})
-			}
-		}
-	}
-	// The same under base URLs that have a path component (a sumdb behind a
-	// proxy or mirror): every request stays below the base.
-	for _, prefix := range []string{"/mirror", "/sumdb/sum.golang.org"} {
-		scp := client.NewSumDB(8, u0.K1.Verif, "http://sumdb.test"+prefix, &http.Client{Transport: rec})
-		for _, n := range []int64{0, 1, 255, 999, 1000, 1001, 999999, 1000000, 123456789} {
-			for level := 0; level <= 7; level++ {
-				for _, w := range wsub {
-					partial := w
-					if w == 256 {
-						partial = -1
-					}
-					_, _ = scp.TileData(level, int(n), partial)
-					got := last()
-					want := prefix + "/" + tlog.Tile{H: 8, L: level, N: n, W: w}.Path()
-					evals++
-					if got != want {
-						run.Report(fmt.Sprintf("tile-path kind=hash base-url-with-path carry=%v partial=%v", n >= 1000, w < 256), fmt.Sprintf("base URL http://sumdb.test%s: TileData(level=%d, offset=%d, width=%d) requested %s, want %s", prefix, level, n, w, got, want), map[string]any{"kind": "tile-path", "level": level, "n": n, "w": w, "prefix": prefix})
-					}
-				}
-			}
-			_, _ = scp.FullLeavesAtOffset(int(n))
-			got := last()
-			evals++
-			if want := prefix + "/" + (tlog.Tile{H: 8, L: -1, N: n, W: 256}).Path(); got != want {
-				run.Report("tile-path kind=data-full base-url-with-path", fmt.Sprintf("base URL http://sumdb.test%s: FullLeavesAtOffset(%d) requested %s, want %s", prefix, n, got, want), map[string]any{"kind": "tile-path", "level": -1, "n": n, "w": 256, "prefix": prefix})
-			}
-		}
-		_, _ = scp.LatestCheckpoint()
-		evals++
-		if got := last(); got != prefix+"/latest" {
-			run.Report("latest-path base-url-with-path", fmt.Sprintf("base URL http://sumdb.test%s: LatestCheckpoint requested %s", prefix, got), map[string]any{"kind": "tile-path", "prefix": prefix})
-		}
-	}
-	run.Set("tile_coordinates_checked", evals)
-	run.Set("tile_indices", len(idxSet))
-	run.Sample(map[string]any{"TileData": "level=3 offset=1000999 width=37", "expected": "/" + tlog.Tile{H: 8, L: 3, N: 1000999, W: 37}.Path()})
+	evals += c18Addressing(run)
 
 	// ------------------------------------------------ proofs through the real feeder
 	maxN := 300
@@ -524,6 +421,56 @@ func c18(tier string) int {
 			}
 		}
 	}
+	// Polling mode: ONE FeedLog call (interval > 0) follows the log through
+	// several growths (whatever the feeder keeps between cycles - clients,
+	// contexts, readers - must keep working).
+	{
+		var pmu sync.Mutex
+		cur := 300
+		srvFor := func() *sumdbServer {
+			pmu.Lock()
+			defer pmu.Unlock()
+			return &sumdbServer{hashes: srvAll.hashes, size: int64(cur), latest: cpsGet(cps, u, origin, cur)}
+		}
+		var bad []string
+		tr := roundTripFunc(func(r *http.Request) (*http.Response, error) {
+			sv := srvFor()
+			resp, err := sv.RoundTrip(r)
+			pmu.Lock()
+			bad = append(bad, sv.bad...)
+			pmu.Unlock()
+			return resp, err
+		})
+		pw := &c18PollWitness{latest: u.Sign(uni.Body(origin, 100, u.Main.Root(100)), u.K1.Signer, u.W1.CosigSigner), size: 100, u: u, origin: origin}
+		ctx, cancel := context.WithCancel(context.Background())
+		done := make(chan error, 1)
+		go func() { done <- sumdb.FeedLog(ctx, cl, pw, &http.Client{Transport: tr}, 40*time.Millisecond) }()
+		for step, size := range []int{300, 700, 1100, 1200, 1201} {
+			pmu.Lock()
+			cur = size
+			pmu.Unlock()
+			deadline := time.Now().Add(60 * time.Second)
+			for pw.Size() != uint64(size) && time.Now().Before(deadline) {
+				time.Sleep(20 * time.Millisecond)
+			}
+			if got := pw.Size(); got != uint64(size) {
+				run.Report(fmt.Sprintf("polling-feeder-stops-following growth-step=%d", step), fmt.Sprintf("one FeedLog call polling every 40 ms: the log grew to %d (growth step %d) but after 60 s the witness is still at %d; refused submissions: %d", size, step, got, pw.Refused()), map[string]any{"kind": "sumdb-polling", "step": step})
+				break
+			}
+		}
+		cancel()
+		select {
+		case <-done:
+		case <-time.After(30 * time.Second):
+			run.Report("polling-feeder-does-not-stop", "sumdb.FeedLog did not return within 30 s of its context being cancelled", map[string]any{"kind": "sumdb-polling"})
+		}
+		pmu.Lock()
+		if len(bad) > 0 {
+			run.Report("tile-request polling", fmt.Sprintf("polling feeder: %s", bad[0]), map[string]any{"kind": "sumdb-polling"})
+		}
+		pmu.Unlock()
+		run.Add("polling_growth_steps", 5)
+	}
 	run.Set("cycles_with_one_wrong_answer", transient)
 	run.Set("text_labelled_answers_containing_crlf", crlfServed)
 	if crlfServed == 0 {
@@ -553,4 +500,176 @@ func cpsGet(cps map[int][]byte, u *uni.U, origin string, n int) []byte {
 	}
 	cps[n] = u.Sign(uni.Body(origin, uint64(n), u.Main.Root(n)), u.K1.Signer)
 	return cps[n]
+}
+
+// c18Addressing: every tile coordinate requested by the SumDB client against
+// the reference tlog path (shared with C14, whose feeders depend on it).
+func c18Addressing(run *ev.Run) int64 {
+	var evals int64
+	// ------------------------------------------------ addressing
+	rec := &pathRecorder{}
+	u0 := uni.New(ev.Seed(), 2, nil)
+	sc := client.NewSumDB(8, u0.K1.Verif, "http://sumdb.test", &http.Client{Transport: rec})
+	last := func() string {
+		rec.mu.Lock()
+		defer rec.mu.Unlock()
+		if len(rec.paths) != 1 {
+			n := len(rec.paths)
+			rec.paths = rec.paths[:0]
+			return fmt.Sprintf("<%d requests instead of 1>", n)
+		}
+		p := rec.paths[0]
+		rec.paths = rec.paths[:0]
+		return p
+	}
+	idxSet := map[int64]bool{}
+	for i := int64(0); i <= 2100; i++ {
+		idxSet[i] = true
+	}
+	for _, base := range []int64{1000, 1000000, 1000000000} {
+		for _, m := range []int64{1, 2, 9, 10, 99, 100, 999} {
+			for _, d := range []int64{-1, 0, 1} {
+				if v := base*m + d; v >= 0 && v <= 1000000001 {
+					idxSet[v] = true
+				}
+			}
+		}
+	}
+	idxSet[999999] = true
+	idxSet[999999999] = true
+	idxSet[123456789] = true
+	widths := []int{}
+	for w := 1; w <= 256; w++ {
+		widths = append(widths, w)
+	}
+	wsub := []int{1, 2, 9, 10, 99, 100, 255, 256}
+	var addrBad int
+	for n := range idxSet {
+		ws := wsub
+		if n <= 40 || n%1000 == 999 || n%1000 == 0 {
+			ws = widths
+		}
+		for level := 0; level <= 7; level++ {
+			for _, w := range ws {
+				partial := w
+				if w == 256 {
+					partial = -1 // as the feeder's tile reader maps the full width
+				}
+				_, _ = sc.TileData(level, int(n), partial)
+				got := last()
+				want := "/" + tlog.Tile{H: 8, L: level, N: n, W: w}.Path()
+				evals++
+				if got != want {
+					addrBad++
+					run.Report(fmt.Sprintf("tile-path kind=hash carry=%v partial=%v", n >= 1000, w < 256), fmt.Sprintf("TileData(level=%d, offset=%d, width=%d) requested %s, the reference tlog path is %s", level, n, w, got, want), map[string]any{"kind": "tile-path", "level": level, "n": n, "w": w})
+				}
+			}
+		}
+		// data tiles
+		_, _ = sc.FullLeavesAtOffset(int(n))
+		got := last()
+		want := "/" + tlog.Tile{H: 8, L: -1, N: n, W: 256}.Path()
+		evals++
+		if got != want {
+			run.Report(fmt.Sprintf("tile-path kind=data-full carry=%v", n >= 1000), fmt.Sprintf("FullLeavesAtOffset(%d) requested %s, reference %s", n, got, want), map[string]any{"kind": "tile-path", "level": -1, "n": n, "w": 256})
+		}
+		for _, w := range wsub[:7] {
+			_, _ = sc.PartialLeavesAtOffset(int(n), w)
+			got := last()
+			want := "/" + tlog.Tile{H: 8, L: -1, N: n, W: w}.Path()
+			evals++
+			if got != want {
+				run.Report(fmt.Sprintf("tile-path kind=data-partial carry=%v", n >= 1000), fmt.Sprintf("PartialLeavesAtOffset(%d, %d) requested %s, reference %s", n, w, got, want), map[string]any{"kind": "tile-path", "level": -1, "n": n, "w": w})
+			}
+		}
+	}
+	// The same under base URLs that have a path component (a sumdb behind a
+	// proxy or mirror): every request stays below the base.
+	for _, prefix := range []string{"/mirror", "/sumdb/sum.golang.org"} {
+		scp := client.NewSumDB(8, u0.K1.Verif, "http://sumdb.test"+prefix, &http.Client{Transport: rec})
+		for _, n := range []int64{0, 1, 255, 999, 1000, 1001, 999999, 1000000, 123456789} {
+			for level := 0; level <= 7; level++ {
+				for _, w := range wsub {
+					partial := w
+					if w == 256 {
+						partial = -1
+					}
+					_, _ = scp.TileData(level, int(n), partial)
+					got := last()
+					want := prefix + "/" + tlog.Tile{H: 8, L: level, N: n, W: w}.Path()
+					evals++
+					if got != want {
+						run.Report(fmt.Sprintf("tile-path kind=hash base-url-with-path carry=%v partial=%v", n >= 1000, w < 256), fmt.Sprintf("base URL http://sumdb.test%s: TileData(level=%d, offset=%d, width=%d) requested %s, want %s", prefix, level, n, w, got, want), map[string]any{"kind": "tile-path", "level": level, "n": n, "w": w, "prefix": prefix})
+					}
+				}
+			}
+			_, _ = scp.FullLeavesAtOffset(int(n))
+			got := last()
+			evals++
+			if want := prefix + "/" + (tlog.Tile{H: 8, L: -1, N: n, W: 256}).Path(); got != want {
+				run.Report("tile-path kind=data-full base-url-with-path", fmt.Sprintf("base URL http://sumdb.test%s: FullLeavesAtOffset(%d) requested %s, want %s", prefix, n, got, want), map[string]any{"kind": "tile-path", "level": -1, "n": n, "w": 256, "prefix": prefix})
+			}
+		}
+		_, _ = scp.LatestCheckpoint()
+		evals++
+		if got := last(); got != prefix+"/latest" {
+			run.Report("latest-path base-url-with-path", fmt.Sprintf("base URL http://sumdb.test%s: LatestCheckpoint requested %s", prefix, got), map[string]any{"kind": "tile-path", "prefix": prefix})
+		}
+	}
+	run.Set("tile_coordinates_checked", evals)
+	run.Set("tile_indices", len(idxSet))
+	run.Sample(map[string]any{"TileData": "level=3 offset=1000999 width=37", "expected": "/" + tlog.Tile{H: 8, L: 3, N: 1000999, W: 37}.Path()})
+
+	return evals
+}
+
+type roundTripFunc func(*http.Request) (*http.Response, error)
+
+func (f roundTripFunc) RoundTrip(r *http.Request) (*http.Response, error) { return f(r) }
+
+// c18PollWitness holds one log's latest checkpoint and accepts a step only
+// with a proof the RFC 6962 reference accepts (as the real witness does).
+type c18PollWitness struct {
+	mu      sync.Mutex
+	latest  []byte
+	size    uint64
+	refused int
+	u       *uni.U
+	origin  string
+}
+
+func (w *c18PollWitness) Size() uint64 { w.mu.Lock(); defer w.mu.Unlock(); return w.size }
+func (w *c18PollWitness) Refused() int { w.mu.Lock(); defer w.mu.Unlock(); return w.refused }
+func (w *c18PollWitness) GetLatestCheckpoint(context.Context, string) ([]byte, error) {
+	w.mu.Lock()
+	defer w.mu.Unlock()
+	return w.latest, nil
+}
+func (w *c18PollWitness) Update(_ context.Context, _ string, old uint64, cp []byte, p [][]byte) ([]byte, error) {
+	w.mu.Lock()
+	defer w.mu.Unlock()
+	text, _, ok := uni.SplitNote(cp)
+	var n uint64
+	if ok {
+		if l := strings.SplitN(text, "\n", 3); len(l) >= 2 {
+			n, _ = strconv.ParseUint(l[1], 10, 64)
+		}
+	}
+	if old != w.size {
+		w.refused++
+		return w.latest, witness.ErrCheckpointStale
+	}
+	if n < w.size || n > uint64(len(w.u.Main.Data)) {
+		w.refused++
+		return w.latest, witness.ErrInvalidProof
+	}
+	if n > w.size {
+		if good, _ := ref6962.Verify(w.size, n, p, w.u.Main.Root(int(w.size)), w.u.Main.Root(int(n))); !good {
+			w.refused++
+			return w.latest, witness.ErrInvalidProof
+		}
+	}
+	w.size = n
+	w.latest = w.u.Sign(text, w.u.K1.Signer, w.u.W1.CosigSigner)
+	return w.latest, nil
 }
